@@ -201,6 +201,14 @@ fn main() {
             }
             println!("all + compare    {:>6.0} ns/case ({})", t.elapsed().as_nanos() as f64 / n as f64, acc);
         }
+        "conform" => {
+            // conform <file>: replay model behaviours (one per line: steps `n.k.i/outcome/d1+d2+..`)
+            // on the real parser; the outcome class and the delivered payload must be the model's.
+            if args.len() < 3 {
+                usage();
+            }
+            std::process::exit(props::conform(&args[2]));
+        }
         "explore" => {
             // explore <PROP> <tier>: only the explicit-state part of a check
             if args.len() < 4 {
